@@ -2,6 +2,9 @@
 # tools/mutant.sh <patch> <ID>... : apply a patch to /repo, run the quick checks, restore /repo.
 # Prints one line per check: <patch> <ID> exit=<rc> [violated formula]
 P=$1; shift
+# /repo is shared with other runners: one patch at a time
+exec 9>/tmp/repo.lock
+flock 9
 cd /repo || exit 2
 git diff --quiet || { echo "/repo has uncommitted changes"; exit 2; }
 git apply "$P" || { echo "patch does not apply: $P"; exit 2; }
